@@ -20,7 +20,9 @@ use std::sync::Arc;
 use tokio::sync::mpsc;
 
 /// fixture variants: bit 0 = SRTP session installed (AES_CM_128_HMAC_SHA1_80), bit 1 = latching with a probation window,
-/// bit 2 = latching without probation, bit 3 = an expected SSRC is set
+/// bit 2 = latching without probation, bit 3 = an expected SSRC is set, bit 4 = a rewrite bridge to a second transport is installed
+/// (relay: SSRC / PT / DTMF rewrite, sequence and timestamp continuation, MID stamping, re-serialisation), bit 5 = the bridge strips extensions,
+/// bit 6 = the destination protects with SRTP
 pub struct Fix {
     rt: tokio::runtime::Runtime,
     conn: Arc<IceConn>,
@@ -30,6 +32,7 @@ pub struct Fix {
     pub tx: Option<SrtpSession>,
     _sock_tx: tokio::sync::watch::Sender<Option<rustrtc::transports::ice::IceSocketWrapper>>,
     pub variant: u8,
+    _dst: Option<(Arc<RtpTransport>, tokio::sync::watch::Sender<Option<rustrtc::transports::ice::IceSocketWrapper>>)>,
 }
 fn km(dir: u8) -> SrtpKeyingMaterial { SrtpKeyingMaterial::new((0..16).map(|k| k as u8 ^ (0x30 + dir)).collect(), (0..14).map(|k| k as u8 ^ (0x70 + dir)).collect()) }
 
@@ -61,7 +64,23 @@ impl Fix {
             tx = Some(SrtpSession::new(SrtpProfile::Aes128Sha1_80, km(1), km(2)).unwrap());
         }
         conn.set_rtp_receiver(tr.clone() as Arc<dyn PacketReceiver>);
-        Fix { rt, conn, tr, rtp_rx, rtcp_rx, tx, _sock_tx: sock_tx, variant }
+        let mut dst = None;
+        if variant & 16 != 0 {
+            use rustrtc::transports::rtp::{RtpRewriteBridgeOptions, RtpRewriteRule};
+            let (dtx, drx) = tokio::sync::watch::channel(None);
+            let dconn = IceConn::new(drx, "127.0.0.1:4100".parse().unwrap(), Some("c07-dst".into()));
+            let d = Arc::new(RtpTransport::new(dconn, variant & 64 != 0));
+            if variant & 64 != 0 { d.start_srtp(SrtpSession::new(SrtpProfile::Aes128Sha1_80, km(3), km(4)).unwrap()); }
+            let options = RtpRewriteBridgeOptions { strip_extensions: variant & 32 != 0, initial_sequence_number: Some(0xFFF8), initial_timestamp_offset: Some(0xFFFF_FF00), initial_output_timestamp: None };
+            let rules = vec![
+                RtpRewriteRule { match_payload_type: Some(96), fixed_out_ssrc: Some(0x7000), ssrc_offset: 0, out_payload_type: Some(100), sdes_mid_extension_id: Some(1), sdes_mid: Some("0".into()) },
+                RtpRewriteRule { match_payload_type: Some(97), fixed_out_ssrc: None, ssrc_offset: 0xFFFF_FFFF, out_payload_type: None, sdes_mid_extension_id: Some(14), sdes_mid: Some("a-rather-long-mid".into()) },
+                RtpRewriteRule { match_payload_type: None, fixed_out_ssrc: None, ssrc_offset: 7, out_payload_type: Some(8), sdes_mid_extension_id: None, sdes_mid: None },
+            ];
+            tr.bridge_rewrite_rules_to(d.clone(), options, rules);
+            dst = Some((d, dtx));
+        }
+        Fix { rt, conn, tr, rtp_rx, rtcp_rx, tx, _sock_tx: sock_tx, variant, _dst: dst }
     }
     fn drain(&mut self) -> usize {
         let mut n = 0;
@@ -82,7 +101,11 @@ pub fn run_rtprecv(run: &mut Run, fix: &mut Fix, from: u8, pkt: &[u8], nt: bool)
     let d = pkt.to_vec();
     let variant = fix.variant;
     let mut f = std::panic::AssertUnwindSafe(&mut *fix);
-    exec(run, "rtprecv", &format!("{variant} {from} {}", hex(pkt)), "IceConn::receive→RtpTransport::receive", nt, Some((64, 32768, pkt.len() as u64)), move || {
+    // with an SRTP-protected destination leg every new output SSRC adds a ≈ 7 KB protect context to a hash table that stores them inline: a
+    // rehash of a table of k contexts allocates ≈ 2k·7 KB in one call (amortised; the table is capped at 1024). The per-call bound of these
+    // variants allows for a table of ≈ 256 contexts; growth itself is judged by the retained-memory flood (`rtpflood 4`).
+    let b = if variant & 64 != 0 { 4 << 20 } else { 32768 };
+    exec(run, "rtprecv", &format!("{variant} {from} {}", hex(pkt)), "IceConn::receive→RtpTransport::receive", nt, Some((64, b, pkt.len() as u64)), move || {
         f.feed(&d, src(from));
         super::mark_alloc();
         let n = f.drain();
@@ -117,7 +140,9 @@ fn cpu_time() -> f64 {
 
 /// kind 0: plain RTP, a new SSRC per packet on a uniquely routed payload type (each is bound: `bind_ssrc_route`);
 /// kind 1: latching with probation, a new source address per packet (`probation.candidates`);
-/// kind 2: plain RTP, new SSRC per packet with a RID extension naming a registered rid (bound through the RID route).
+/// kind 2: plain RTP, new SSRC per packet with a RID extension naming a registered rid (bound through the RID route);
+/// kind 4: relay into an SRTP-protected leg with a new source SSRC per packet (bridge stream state + one SRTP protect context per SSRC);
+/// kind 3: 72 000 packets relayed through a rewrite bridge (`RewriteBridge.streams`, output sequence / timestamp continuation).
 /// Oracles: retained ≤ 16·bytes received + 64 KiB; CPU time of the flood must not grow faster than linearly:
 /// flood(4n) ≤ 8·flood(n) once flood(4n) ≥ 0.4 s (a per-packet scan of everything received so far is quadratic).
 pub fn run_rtpflood(run: &mut Run, kind: u8, count: u32) {
@@ -127,15 +152,17 @@ pub fn run_rtpflood(run: &mut Run, kind: u8, count: u32) {
     let r = super::catch_ack(move || {
         let mut out = (0u64, 0u64, [0f64; 2]);
         for (round, n) in [count / 4, count].into_iter().enumerate() {
-            let mut fix = Fix::new(if kind == 1 { 2 } else { 0 });
+            let mut fix = Fix::new(match kind { 1 => 2, 3 => 16, 4 => 16 + 64, _ => 0 });
             super::alloc_reset();
             let t0 = cpu_time();
             let mut bytes = 0u64;
             for k in 0..n {
                 let mut p = vec![0x80u8, 96, (k >> 8) as u8, k as u8, 0, 0, 0, 1];
-                let ssrc = if kind == 1 { 0x1000 } else { 0x4000_0000 + k };
+                // kind 3: one source stream relayed through the bridge for longer than the 16-bit sequence space; every 64th packet a new source SSRC
+                let ssrc = if kind == 1 { 0x1000 } else if kind == 3 { 0x5000_0000 + k / 64 * (k % 64 == 0) as u32 } else { 0x4000_0000 + k };
                 p.extend_from_slice(&ssrc.to_be_bytes());
                 if kind == 2 { p[0] = 0x90; p.extend_from_slice(&[0xBE, 0xDE, 0, 1, 0x31, b'h', b'i', 0]); }
+                if kind == 4 { p[1] = 98; }                      // catch-all rule: output SSRC = source SSRC + 7
                 p.push(0x55);
                 bytes += p.len() as u64;
                 let from: SocketAddr = if kind == 1 { SocketAddr::new(std::net::IpAddr::V4(std::net::Ipv4Addr::from(0x0A00_0000 + k)), 5000) } else { src(0) };
@@ -155,18 +182,18 @@ pub fn run_rtpflood(run: &mut Run, kind: u8, count: u32) {
     run.count_n(&format!("rtpflood:retained_per_input_byte_x100:{kind}"), retained * 100 / bytes_in.max(1));
     run.count_n(&format!("rtpflood:cpu_ms:{kind}"), (times[1] * 1000.0) as u64);
     if retained > 16 * bytes_in + 65536 {
-        run.fail(&format!("retain:RtpTransport::receive:{}", ["ssrc-bind-per-packet", "probation-per-source", "ssrc-bind-per-packet(rid)"][kind.min(2) as usize]), &case,
+        run.fail(&format!("retain:RtpTransport::receive:{}", ["ssrc-bind-per-packet", "probation-per-source", "ssrc-bind-per-packet(rid)", "bridge-stream-per-ssrc", "bridge-srtp-context-per-ssrc"][kind.min(4) as usize]), &case,
             &format!("{retained} bytes retained after {count} packets ({bytes_in} bytes received)"));
     }
     if times[1] >= 0.4 && times[1] > 8.0 * times[0].max(0.01) {
-        run.fail(&format!("slow:RtpTransport::receive:{}", ["ssrc-bind-scan", "probation-scan", "ssrc-bind-scan(rid)"][kind.min(2) as usize]), &case,
+        run.fail(&format!("slow:RtpTransport::receive:{}", ["ssrc-bind-scan", "probation-scan", "ssrc-bind-scan(rid)", "bridge", "bridge-srtp"][kind.min(4) as usize]), &case,
             &format!("{} packets took {:.2} s CPU, {} packets {:.2} s: super-linear in the number of packets received", count / 4, times[0], count, times[1]));
     }
     run.case("rtpflood", &format!("{kind} {count}"), "noncompared", true);
 }
 
 pub fn special(run: &mut Run, rng: &mut Rng, thorough: bool) {
-    let variants: &[u8] = if thorough { &[0, 1, 2, 3, 4, 6 + 4, 8 + 2, 8 + 4 + 1] } else { &[0, 1, 2, 8 + 4] };
+    let variants: &[u8] = if thorough { &[0, 1, 2, 3, 4, 6 + 4, 8 + 2, 8 + 4 + 1, 16, 16 + 32, 16 + 64, 16 + 1, 16 + 64 + 1] } else { &[0, 1, 2, 8 + 4, 16, 16 + 32 + 64] };
     for &v in variants {
         let mut fix = Fix::new(v);
         // every datagram of length 0 and 1; 2-byte datagrams on the classification boundaries
@@ -192,6 +219,8 @@ pub fn special(run: &mut Run, rng: &mut Rng, thorough: bool) {
     }
     let n = if thorough { 80_000 } else { 40_000 };
     for kind in 0..3u8 { run_rtpflood(run, kind, n); }
+    run_rtpflood(run, 4, 60_000);                          // relay into an SRTP leg, a new source SSRC per packet: long enough that the constant cap on protect contexts (1024 × ≈ 7 KB) passes the linear bound and per-SSRC growth does not
+    run_rtpflood(run, 3, 72_000);                          // relay: the rewritten sequence number passes 0xFFFF (seeded 0xFFF8) and a full 16-bit cycle
 }
 
 pub fn replay_special(run: &mut Run, stream: &str, a: &[&str]) -> bool {
